@@ -80,6 +80,19 @@ CHECKS = {
    note="TLC as batch oracle over recorded events; real-valued grouping keys are not generated; <loop group=> is bound by the template checks.",
    technique="TLA+ GroupBy operator + partition invariant; TLC batch oracle over recorded Value::GroupBy events",
    design="6 (C18)"),
+ "C19": dict(
+   text="The value of a BigInt is a mathematical integer in the property specification QBigInt. QBigIntImpl transcribes BigInt.hpp with "
+        "the word width as a constant (limbs, index, carry/borrow loops, multi-word shifts, bit scans, wide-operand overloads, copy "
+        "assignment, every limb access recorded) and runs in lock step with the mathematical value: TLC checks exactness, normalised "
+        "index, exact returned remainders/bit indices and in-bounds limb access for every reachable state and operand at 3-bit x 3 and "
+        "4-bit x 2 words; QDivImpl does the same for the half-word double-word divide/multiply helper for every operand triple at 4/6 "
+        "(8 thorough) bit words. Every edge of the QBigInt graph (24 bits, boundary operands, depth 4/5) is replayed into the real "
+        "BigInt<SizeT8,24> under ASan/UBSan, and random histories on 9 instantiations (8/16/32/64-bit words, 24..2048 bits) plus the "
+        "helper grids are logged as bytes and verified relationally by TLC (q*d+r=v, r<d, shifts, bit scans, Index(), IsZero()).",
+   note="exhaustive only at small word widths (transcription) and depth-bounded at 8-bit words (graph); wide instantiations are sampled "
+        "with boundary-biased operands; results that do not fit the width are outside the property.",
+   technique="TLA+ transcription of BigInt refined against the mathematical integer (TLC exhaustive); state-graph replay; TLC relational batch oracle on byte-level naturals",
+   design="6 (C19), appendix A.3"),
 }
 PENDING = "not yet claimed in this revision: its specification and conformance harness are still being built (DESIGN.md section 6 describes the plan)"
 m = {
@@ -94,7 +107,7 @@ m = {
  },
  "engines": [
    {"name": "tlc-runner", "path": "lib/vf.py", "serves_properties": sorted(CHECKS), "kind_free_text": "runs TLC on spec/*.tla (exhaustive, simulation, graph dump, trace validation, batch oracle), builds harnesses from /repo's working tree, filters known findings, writes evidence"},
-   {"name": "graph-walker", "path": "harness/graph.hpp", "serves_properties": ["C12", "C13", "C14"], "kind_free_text": "spec -> code: replays every (state, action) edge of a TLC state graph into the real object and compares projections"},
+   {"name": "graph-walker", "path": "harness/graph.hpp", "serves_properties": ["C12", "C13", "C14", "C19"], "kind_free_text": "spec -> code: replays every (state, action) edge of a TLC state graph into the real object and compares projections"},
  ],
  "checks": [],
  "not_applicable": [],
